@@ -165,6 +165,30 @@ def run_replace(tier, funcs, index, enums, res, text):
                          c20.REPL, c20.INIT, c20.LINES, [0, 1, 2] if tier == "quick" else [0, 1, 2, 3], c20.PIPE_LINES, c20.REPL, c20.PIPE_INIT))
 
 
+def run_print0(tier, funcs, index, enums, res):
+    import c07_print0 as c7
+    res["target"] = ("find: process_dir + WalkEntry::from_walkdir + the matcher built by the real parser from -print0 / -print / no expression + Printer::{matches,print} + "
+                     "<PrintDelimiter as Display>::fmt over a scripted walkdir tree with symbolic names; xargs: ByteDelimitedArgumentReader::next on exactly the bytes written, "
+                     "process_input, CommandBuilderOptions::new, CommandBuilder::{new,add_arg,execute} with std::process::Command as a recorder")
+    shapes = list(c7.SHAPES) + (list(c7.BIG_SHAPES) if tier == "thorough" else ["deep", "wide"])
+    for mode in ("print0", "print", "default"):
+        for sh in shapes:
+            r = c7.explore(sh, funcs, index, enums, mode)
+            res["functions_executed"].update(r.pop("functions_executed"))
+            for v in r.pop("violations"):
+                res["violations"].append({"key": "%s | %s" % (mode, v["what"].split(":")[0][:40]), "summary": "%s: %s (start %r, -depth %s)" % (r["kind"], v["what"], v.get("start"), v.get("depth_first")),
+                                          "replayer": "print0_pipe", "what": v["what"], "kind": r["kind"]})
+            for k, c in r.pop("unsupported").items():
+                res["unsupported"][k] = res["unsupported"].get(k, 0) + c
+            r["bound"] = r["kind"]
+            r["inputs_covered"] = r.pop("checks")
+            res["runs"].append(r)
+    res["bounds"] = ("starting point in %r; tree shapes %s (parent, name length) in pre-order and -depth post-order; every name byte symbolic over 1..127 without '/' "
+                     "(names '.' and '..' excluded); expressions -print0, -print and none; xargs -0 without size limits (C04's), one command 'cmd fixed'. Names with bytes >= 0x80 "
+                     "(multi-byte UTF-8) go through the same code under std's contract that the lossy conversions are the identity on valid UTF-8 - not checked here." % (
+                         c7.STARTS, {k: c7.SHAPES_ALL[k] for k in shapes}))
+
+
 def main():
     prop, tier, out = sys.argv[1], sys.argv[2], sys.argv[3]
     t0 = time.time()
@@ -183,6 +207,8 @@ def main():
         run_readers(tier, funcs, index, enums, res)
     elif prop == "C12":
         run_glob(tier, funcs, index, enums, res)
+    elif prop == "C07":
+        run_print0(tier, funcs, index, enums, res)
     elif prop == "C20":
         run_replace(tier, funcs, index, enums, res, text)
     else:
